@@ -121,8 +121,6 @@ def run(tier, seed):
                     fid = "major-eleventh-long-form-keyerror"
             R.fail(group, "neither-raises", "long form raised %s: %s" % (type(e).__name__, e), inp, finding=fid)
             long_ = None
-        if list(chord) != inp:
-            R.fail(group, "neither-raises", "the input list was changed to %r" % (chord,), inp)
         for form, ans in (("shorthand", short), ("long", long_)):
             if ans is not None and not (isinstance(ans, list) and all(isinstance(x, str) for x in ans)):
                 R.fail(group, "same-length-and-order", "%s form is not a list of strings: %r" % (form, ans), inp)
@@ -166,9 +164,10 @@ def run(tier, seed):
     suffixes = sorted(H.SHORTHAND)
     lib_suffixes = sorted(getattr(chords, "chord_shorthand", {}))
     extra = [s for s in lib_suffixes if s not in H.SHORTHAND]
-    if extra:
+    if [s for s in extra if H.structure_of_shorthand(s) is None]:
         R.assumptions.append("shorthands %r of the library's table are not in the documented list the model knows; "
-                             "their round trip is checked, the meaning of their long form is not" % (extra,))
+                             "their round trip is checked, the meaning of their long form is not"
+                             % ([s for s in extra if H.structure_of_shorthand(s) is None],))
     roots1 = H.names(1)
     doubles = [n for n in H.names(2) if n not in roots1]
     n_double = 4 if quick else len(doubles)
@@ -291,7 +290,7 @@ def run(tier, seed):
             st[3] = (7, 10)
         return H.build(rnd.choice(names3), st[:size])
 
-    n_many = 1500 if quick else 40000
+    n_many = 12000 if quick else 250000
     for i in range(n_many):
         size = 4 + i % 4
         kind = i % 5
@@ -307,6 +306,12 @@ def run(tier, seed):
         ch = ch[k:] + ch[:k]
         R.case(G_MANY, tuple(ch))
         answers(G_MANY, ch)
+
+    if not quick:
+        # tier thorough: every four-note input over the 21 names
+        for quad in itertools.product(names3, repeat=4):
+            R.case(G_MANY, quad)
+            answers(G_MANY, list(quad))
 
     # ------------------------------------------------------------------ 0, 1, 2 notes: documented trivial answers
     R.case(G_SMALL, ())
@@ -361,9 +366,10 @@ def run(tier, seed):
                          "inputs (no-raise / same-length / constructible-names clauses)")
     return R.result(
         "%d documented suffixes x roots (all 21 with <= 1 accidental + %d of 14 double-accidental roots%s) x every "
-        "rotation x {shorthand, long}; all 21^3 three-note inputs + %d sampled with double accidentals; %d seeded "
+        "rotation x {shorthand, long}; all 21^3 three-note inputs + %d sampled with double accidentals; %s%d seeded "
         "4-7 note inputs (random notes, random/plain stacks of thirds, documented chords with inserted/replaced "
         "notes; all rotated); [] / 35 single notes / all 21^2 + %d sampled pairs"
-        % (len(suffixes), n_double, " sampled" if n_double < len(doubles) else "", 300 if quick else 6000, n_many,
+        % (len(suffixes), n_double, " sampled" if n_double < len(doubles) else "", 300 if quick else 6000,
+           "" if quick else "all 21^4 four-note inputs; ", n_many,
            200 if quick else 1225),
         exhaustive=False)
